@@ -306,6 +306,15 @@ func (t *Tpl) writeNode(w io.Writer, node *node, ctx *Ctx) (err error) {
 				return err
 			}
 			empty := raw == nil || raw == ""
+			if !empty {
+				// An empty result of a modifier chain arrives as a pointer to a shared empty buffer,
+				// an empty string field as a pointer to it: both are empty values too.
+				if b, ok := ConvBytes(raw); ok {
+					empty = len(b) == 0
+				} else if s, ok := ConvStr(raw); ok {
+					empty = len(s) == 0
+				}
+			}
 			if len(node.ctxOK) > 0 {
 				ctx.SetStatic(byteconv.B2S(node.ctxOK), !empty)
 			}
